@@ -81,19 +81,20 @@ Theorem C13_carve_WD : forall J ms wd_up, tiling ms -> ms <> [] ->
 Proof. exact carve_WD_spec. Qed.
 Print Assumptions C13_carve_WD.
 
-(* exactly one NS bin when the NS mass is strictly inside one stellar bin *)
+(* exactly one NS bin: the (left-inclusive) stellar bin that contains the NS mass *)
 Theorem C13_carve_NS_unique : forall J ms c14 i, tiling ms ->
-  (i < length ms)%nat -> fst (nth i ms (0, 0)) < c14 < snd (nth i ms (0, 0)) ->
+  (i < length ms)%nat -> fst (nth i ms (0, 0)) <= c14 < snd (nth i ms (0, 0)) ->
   carve_NS (O:=R_ops J) ms c14 = [nth i ms (0, 0)].
 Proof. exact carve_NS_unique. Qed.
 Print Assumptions C13_carve_NS_unique.
 
-(* KNOWN FINDING ns_bin_edge_at_ns_mass: an edge exactly at the NS mass leaves no NS bin *)
-Theorem C13_carve_NS_edge_refuted : forall J, exists ms c14,
-  tiling ms /\ fst (hd (0, 0) ms) < c14 < snd (last ms (0, 0)) /\
-  carve_NS (O:=R_ops J) ms c14 = [].
-Proof. exact carve_NS_edge_refuted. Qed.
-Print Assumptions C13_carve_NS_edge_refuted.
+(* ... which exists whenever the NS mass lies in the stellar range, edges included
+   (before /repo fix 46060d4 an edge exactly at the NS mass left NO NS bin) *)
+Theorem C13_carve_NS_exists : forall J ms c14, tiling ms -> ms <> [] ->
+  fst (hd (0, 0) ms) <= c14 < snd (last ms (0, 0)) ->
+  exists i, (i < length ms)%nat /\ carve_NS (O:=R_ops J) ms c14 = [nth i ms (0, 0)].
+Proof. exact carve_NS_exists. Qed.
+Print Assumptions C13_carve_NS_exists.
 
 (* ---- packing: inverse bijections in the documented order ---------------- *)
 Theorem C13_blueprint : forall L,
